@@ -49,7 +49,7 @@ BadFacets(s, ns, ev) ==
           [] f = "obspanic" -> TRUE
           [] OTHER -> ~AgreeMore(s, ns, op, f, o[f])}
 
-Explain(f, ns, ev) ==
+Explain(f, s, ns, ev) ==
   CASE f = "grid"  -> [exp |-> ObsGridAll(ns), obs |-> ev.obs.grid]
     [] f = "drows" -> [exp |-> ObsDetached(ns), obs |-> ev.obs.drows]
     [] f = "text"  -> [exp |-> ObsText(ns), obs |-> ev.obs.text]
@@ -58,6 +58,7 @@ Explain(f, ns, ev) ==
                                 ecs |-> [e \in DOMAIN ns.ec |-> Ids(ns.ec[e].errs)]],
                        obs |-> ev.obs.errs]
     [] f \in DOMAIN ev.obs -> [obs |-> ev.obs[f], hint |-> ExplainMore(ns, ev.op, f)]
+    [] f = "res.cblog" -> [obs |-> ev.obs.res.cblog, hint |-> ExplainCbLog(s, SlotsOf(s, ev.op), ev.obs.res.cblog)]
     [] OTHER -> [obs |-> ev.obs.res, hint |-> ExplainMore(ns, ev.op, f)]
 
 Init == /\ st = InitState /\ l = 1 /\ scen = "" /\ poisoned = FALSE /\ nmis = 0
@@ -82,7 +83,7 @@ Next ==
              /\ nmis' = IF bad = {} THEN nmis ELSE nmis + 1
              /\ \A f \in bad :
                   CSVWrite("%1$s", <<ToJson([scen |-> scen, line |-> l, facet |-> f, op |-> ev.op.op,
-                                             detail |-> Explain(f, ns, ev)])>>, MisFile)
+                                             detail |-> Explain(f, st, ns, ev)])>>, MisFile)
              /\ (l < Len(Trace) \/ Done(nmis'))
 
 Spec == Init /\ [][Next]_vars
